@@ -191,6 +191,8 @@ FORMATS = {
                       header="##fileformat=VCFv4.2\n#CHROM\tPOS\tID\tREF\tALT\tQUAL\tFILTER\tINFO\n"),
     "sam":       dict(suffix=".sam", rec=sam_rec, exact=False, family="delim", header="@HD\tVN:1.6\tSO:unsorted\n@SQ\tSN:ca\tLN:1000\n"),
     "gtf":       dict(suffix=".gtf", rec=gtf_rec, exact=False, family="delim", header=""),
+    # GFF3 with directive / comment lines between the records (C15: they are not records and are not counted as lines of data)
+    "gffc":      dict(suffix=".gff", rec=gtf_rec, exact=False, family="delim", header="##gff-version 3\n", interior_comments=True),
 }
 
 
